@@ -107,6 +107,8 @@ namespace Pistache::Tcp
             bool isRaw() const { return type == Raw; }
             size_t size() const { return size_; }
             size_t offset() const { return offset_; }
+            // bytes of the original buffer that were sent before this holder was detached from it
+            size_t sentBefore() const { return sentBefore_; }
 
             Fd fd() const
             {
@@ -128,7 +130,9 @@ namespace Pistache::Tcp
                     return BufferHolder(_fd, size_, offset);
 
                 auto detached = _raw.copy(offset);
-                return BufferHolder(detached);
+                BufferHolder holder(detached);
+                holder.sentBefore_ = sentBefore_ + offset;
+                return holder;
             }
 
         private:
@@ -142,8 +146,9 @@ namespace Pistache::Tcp
             RawBuffer _raw;
             Fd _fd;
 
-            size_t size_  = 0;
-            off_t offset_ = 0;
+            size_t size_       = 0;
+            off_t offset_      = 0;
+            size_t sentBefore_ = 0;
             Type type;
         };
 
